@@ -22,6 +22,7 @@ type Env struct {
 	old    *Snapshot
 	alloc  *Term
 	idx    func() *Term
+	visited func() *Term
 	inOld  bool
 	clause *Clause
 	pkg    *types.Package
@@ -570,8 +571,17 @@ func (x *Exec) sliceContentEq(env *Env, a, b TV) *Term {
 	x.counter++
 	j := Atom(fmt.Sprintf("j!e%d", x.counter), SInt)
 	la, lb := Sel("s-len", a.T), Sel("s-len", b.T)
-	ea := x.specHeapRead(env, elem, Sel("s-ref", a.T), Add(Sel("s-off", a.T), j))
-	eb := x.specHeapRead(env, elem, Sel("s-ref", b.T), Add(Sel("s-off", b.T), j))
+	read := func(v TV) *Term {
+		if h := x.oldHeapOf[v.T]; h != nil {
+			e2 := *env
+			e2.heap = h
+			e2.inOld = true
+			return x.specHeapRead(&e2, elem, Sel("s-ref", v.T), Add(Sel("s-off", v.T), j))
+		}
+		return x.specHeapRead(env, elem, Sel("s-ref", v.T), Add(Sel("s-off", v.T), j))
+	}
+	ea := read(a)
+	eb := read(b)
 	var eq *Term
 	if x.ti.SortOf(elem).IsFP() {
 		eq = Eq(ea, eb) // bitwise identity for copies
@@ -632,7 +642,20 @@ func (x *Exec) compileCall(env *Env, e *SCall) Value {
 	}
 	switch e.Fun {
 	case "old":
-		return x.compile(env.asOld(), e.Args[0])
+		oe := env.asOld()
+		v := x.compile(oe, e.Args[0])
+		if tv, ok := v.(TV); ok && tv.T.Sort == SSlice {
+			// remember the heap this slice value was evaluated in: content
+			// comparisons read its elements there (keyed by a private copy of the term)
+			cp := *tv.T
+			tv.T = &cp
+			if x.oldHeapOf == nil {
+				x.oldHeapOf = map[*Term]map[string]*Term{}
+			}
+			x.oldHeapOf[tv.T] = oe.heap
+			return tv
+		}
+		return v
 	case "len":
 		a := argTV(0)
 		switch a.T.Sort {
@@ -703,12 +726,12 @@ func (x *Exec) compileCall(env *Env, e *SCall) Value {
 			a := argTV(i)
 			switch u := a.Ty.Underlying().(type) {
 			case *types.Slice:
-				except = append(except, modObj{x.ti.HeapKey(u.Elem()), Sel("s-ref", a.T)})
+				except = append(except, modObj{key: x.ti.HeapKey(u.Elem()), ref: Sel("s-ref", a.T)})
 			case *types.Pointer:
-				except = append(except, modObj{x.ti.HeapKey(elemOfPointee(u.Elem())), Sel("p-ref", a.T)})
+				except = append(except, modObj{key: x.ti.HeapKey(elemOfPointee(u.Elem())), ref: Sel("p-ref", a.T)})
 			case *types.Map:
 				dk, vk, lk := x.ti.MapKeys(u)
-				except = append(except, modObj{dk, a.T}, modObj{vk, a.T}, modObj{lk, a.T})
+				except = append(except, modObj{key: dk, ref: a.T}, modObj{key: vk, ref: a.T}, modObj{key: lk, ref: a.T})
 			default:
 				env.fail("unchanged(): argument %d is not a heap object", i)
 			}
@@ -725,7 +748,7 @@ func (x *Exec) compileCall(env *Env, e *SCall) Value {
 			cond := []*Term{Le(IntLit(0), r), Le(r, env.old.alloc)}
 			for _, m := range except {
 				if m.key == key {
-					cond = append(cond, Not(Eq(r, m.ref)))
+					cond = append(cond, m.excludes(r))
 				}
 			}
 			conj = append(conj, &Term{Op: "forall", Sort: SBool, Bound: []*Term{r}, Args: []*Term{Implies(And(cond...), Eq(Select(h, r), Select(base, r)))}, Pats: []*Term{Select(h, r)}})
@@ -752,6 +775,16 @@ func (x *Exec) compileCall(env *Env, e *SCall) Value {
 			return a
 		}
 		env.fail("string() of %s", a.Ty)
+	case "errseen":
+		if env.st == nil || env.st.errSeen == nil {
+			return TV{False, tBool}
+		}
+		return TV{env.st.errSeen, tBool}
+	case "visited":
+		if env.visited == nil {
+			env.fail("visited() outside a map range loop")
+		}
+		return TV{Select(env.visited(), argTV(0).T), tBool}
 	case "idx":
 		if env.idx == nil {
 			env.fail("idx() outside a range loop")
